@@ -56,7 +56,7 @@ class Ctx:
             roles = []
             if node.base is not None:
                 call = node.base.call
-                callee_fn = self.w.funcs[node.base.callee][1]
+                callee_fn = self.w.funcs[node.base.callee[:2]][1]
                 params = [a.arg for a in callee_fn.args.args if a.arg not in ("cls", "self")]
                 pname = t.split(".")[0]
                 arg = None
